@@ -154,6 +154,34 @@ pub fn run(ctx: &Ctx) -> i32 {
                 })));
             }
         }
+        // operations whose ONE call to next() has to skip over ~N candidate keys before it can answer: intersections of (nearly)
+        // disjoint inputs, symmetric differences and differences of identical inputs, and the relations built on them
+        let evens = build_map(n, 2, 0);
+        let odds = build_map(n, 2, 1);
+        let (fe, fo) = (Fst::new(&evens[..]).unwrap(), Fst::new(&odds[..]).unwrap());
+        {
+            let (fa, fe, fo) = (&fa, &fe, &fo);
+            macro_rules! count {
+                ($s:expr) => {{
+                    let mut s = $s;
+                    let mut c = 0u64;
+                    while let Some(_) = s.next() {
+                        c += 1;
+                    }
+                    c
+                }};
+            }
+            ops.push(("intersection of disjoint inputs k=2".into(), Box::new(move || count!(OpBuilder::new().add(fe).add(fo).intersection()))));
+            ops.push(("intersection of disjoint inputs + a third k=3".into(), Box::new(move || count!(OpBuilder::new().add(fe).add(fa).add(fo).intersection()))));
+            ops.push(("intersection where one input ends early k=2".into(), Box::new(move || count!(OpBuilder::new().add(fe).add(fo.range().lt("0000000100")).intersection()))));
+            ops.push(("symmetric_difference of identical inputs k=2".into(), Box::new(move || count!(OpBuilder::new().add(fa).add(fa).symmetric_difference()))));
+            ops.push(("symmetric_difference of identical inputs k=4".into(), Box::new(move || count!(OpBuilder::new().add(fa).add(fa).add(fa.range().ge("0")).add(fa).symmetric_difference()))));
+            ops.push(("difference of identical inputs k=2".into(), Box::new(move || count!(OpBuilder::new().add(fa).add(fa).difference()))));
+            ops.push(("difference against interleaved inputs k=3".into(), Box::new(move || count!(OpBuilder::new().add(fe).add(fo).add(fa).difference()))));
+            ops.push(("relation is_disjoint(evens, odds)".into(), Box::new(move || fe.is_disjoint(fo) as u64 + 1)));
+            ops.push(("relation is_subset / is_superset of itself".into(), Box::new(move || fa.is_subset(fa) as u64 + fa.is_superset(fa) as u64 + 1)));
+            ops.push(("relation is_subset(evens, odds) / is_superset".into(), Box::new(move || fe.is_subset(fo) as u64 + fe.is_superset(fo) as u64 + 1)));
+        }
         for (name, f) in ops {
             ev.eval(Some(crate::rng::fnv_u64(crate::rng::fnv(name.as_bytes()), n)));
             match guard(|| measured(f)) {
